@@ -108,6 +108,54 @@ func runC20Flags(r *Report, rng *rand.Rand, thorough bool, bin, dir, specPath st
 			}
 		}
 	}
+	// a templates directory with one override at the top level and one in a framework subdirectory, given by the flag
+	// (new-style run) and by the templates: key of an old-style file: same output as the library with user-templates
+	{
+		tdir := filepath.Join(dir, "usertemplates")
+		must(os.MkdirAll(filepath.Join(tdir, "chi"), 0o755))
+		read := func(rel string) string {
+			b, err := os.ReadFile(filepath.Join("/repo/pkg/codegen/templates", rel))
+			must(err)
+			return string(b)
+		}
+		over := map[string]string{
+			"typedef.tmpl":           "// MARKER-top-level-override\n" + read("typedef.tmpl"),
+			"chi/chi-interface.tmpl": "// MARKER-framework-override\n" + read("chi/chi-interface.tmpl"),
+		}
+		for rel, text := range over {
+			must(os.WriteFile(filepath.Join(tdir, rel), []byte(text), 0o644))
+		}
+		must(os.WriteFile(filepath.Join(tdir, "README.md"), []byte("not a template\n"), 0o644))
+		var want codegen.Configuration
+		want.PackageName = "api"
+		want.Generate = codegen.GenerateOptions{Models: true, ChiServer: true}
+		want.OutputOptions.UserTemplates = map[string]string{}
+		for rel, text := range over {
+			want.OutputOptions.UserTemplates[rel] = text
+		}
+		want.OutputOptions.UserTemplates["README.md"] = "not a template\n"
+		wantOut, err := generate(c17SpecForCLI(specPath), want)
+		oldCfg := filepath.Join(dir, "oldtemplates.yaml")
+		must(os.WriteFile(oldCfg, []byte("package: api\ngenerate: [types, chi-server]\ntemplates: "+tdir+"\n"), 0o644))
+		runs := map[string][]string{
+			"flag":          {"-package", "api", "-generate", "types,chi-server", "-templates", tdir, specPath},
+			"old-style-key": {"-old-config-style", "-config", oldCfg, specPath},
+		}
+		for how, args := range runs {
+			r.Count("templates-directory/"+how, true)
+			r.Dist["family=templates-directory"]++
+			if err != nil {
+				r.Violate("templates_directory_library_error", err.Error(), nil)
+				continue
+			}
+			res := runCLI(bin, dir, args...)
+			got := maskHeader(res.stdout)
+			if res.exit != 0 || got != maskHeader(wantOut) || !strings.Contains(got, "MARKER-top-level-override") || !strings.Contains(got, "MARKER-framework-override") {
+				r.Violate("templates_directory_differs_from_library", fmt.Sprintf("templates directory given by %s: exit %d, top-level override applied %v, framework (chi/) override applied %v; %s", how, res.exit,
+					strings.Contains(got, "MARKER-top-level-override"), strings.Contains(got, "MARKER-framework-override"), firstLineDiff(maskHeader(wantOut), got)), map[string]any{"args": args})
+			}
+		}
+	}
 	// through the binary: what the flag resolves to, as printed by -output-config
 	for _, tc := range []struct {
 		flag string
